@@ -1195,6 +1195,11 @@ namespace
             F["line"] = (int64_t)lineOf(FD->getLocation());
             F["endline"] = (int64_t)lineOf(FD->getEndLoc());
             F["ret"] = typeStr(FD->getReturnType());
+            // declared not to throw (noexcept / noexcept(true) / throw()): an exception that reaches its boundary calls std::terminate
+            if (auto* FPT = FD->getType()->getAs<FunctionProtoType>())
+                if (FPT->hasExceptionSpec() && isNoexceptExceptionSpec(FPT->getExceptionSpecType()) && FPT->canThrow() == CT_Cannot
+                    && !isa<CXXDestructorDecl>(FD))
+                    F["noexcept"] = true;
             json::Array params;
             for (auto* P : FD->parameters())
             {
